@@ -99,4 +99,16 @@ func runC17(c *eng.Ctx) {
 	ms := c.Fn(L + "FastRegexMatcher.MatchString")
 	ms.Only("R3", eng.Return("return", func(g *eng.Graph, rs *ast.ReturnStmt) bool { return true }), "delegates to the compiled function", func(l eng.Loc) bool { return nodeText(l.Node) == "return m.matchString(s)" })
 	c.WritersSubset("R3", L+"FastRegexMatcher.matchString", 2, L+"NewFastRegexMatcher")
+	// ---- R4 (added for seed C17-a) the contains matcher tries every occurrence of the literal, overlapping ones included ----
+	csm := c.Fn(L + "containsStringMatcher.Matches")
+	adv := eng.AssignVar("searchStartPos")
+	csm.Has("R4", adv, 2)
+	csm.Only("R4", adv, "restarts the search one position after the occurrence just rejected (or at 0)", func(l eng.Loc) bool {
+		as, ok := l.Node.(*ast.AssignStmt)
+		if !ok || len(as.Rhs) != 1 {
+			return true
+		}
+		lf, okL := eng.Linear(csm.Info, as.Rhs[0])
+		return okL && (lf.String() == "+0" || lf.String() == "+1*pos +1")
+	})
 }
